@@ -20,6 +20,8 @@ MODS = {
     "tpproto": ("parser/src/tokenparser.rs", "tpproto_h.rs", "tokenparser::verif_proto::"),
     "pcache": ("parser/src/earley/parser.rs", "pcache_h.rs", "earley::parser::verif_cache::"),
     "mproto": ("parser/src/matcher.rs", "mproto_h.rs", "matcher::verif_proto::"),
+    "ffim": ("parser/src/ffi.rs", "ffim_h.rs", "ffi::verif_ffim::"),
+    "pvalid": ("parser/src/earley/parser.rs", "pvalid_h.rs", "earley::parser::verif_valid::"),
     "cproto": ("parser/src/constraint.rs", "cproto_h.rs", "constraint::verif_proto::"),
 }
 
@@ -32,6 +34,12 @@ PCACHE_PARSER_FNS = ["invalidate_bias_cache"]
 MATCHER_FNS = ["with_inner", "consume_tokens", "consume_token", "rollback", "reset", "compute_mask", "compute_mask_or_eos", "is_accepting",
                "is_stopped", "stop_reason", "compute_ff_tokens", "consume_ff_tokens", "compute_ff_bytes", "try_consume_tokens",
                "validate_tokens", "is_error"]
+
+# C entry points of the matcher interface (top-level functions of ffi.rs) + LlgMatcher helpers (kani/parser/ffim_h.rs)
+FFIM_TOP_FNS = ["slice_from_ptr_or_empty", "llg_matcher_compute_mask_into", "llg_matcher_compute_mask", "llg_matcher_get_mask", "llg_matcher_get_mask_byte_size",
+                "llg_matcher_consume_token", "llg_matcher_consume_tokens", "llg_matcher_rollback", "llg_matcher_reset", "llg_matcher_is_accepting",
+                "llg_matcher_is_stopped", "llg_matcher_validate_tokens", "llg_matcher_compute_ff_tokens"]
+FFIM_IMPL_FNS = ["wrap", "clear_mask", "mask_elts"]
 
 # functions of Constraint re-hosted on a local copy of its struct (kani/parser/cproto_h.rs)
 CONSTRAINT_FNS = ["save_progress_and_result", "save_temperature", "force_tokens", "has_pending_stop", "compute_mask", "compute_mask_inner",
@@ -62,6 +70,10 @@ HARNESSES = {
                    c11_fail=["p11_witness_must_fail"]),
     "mproto": dict(c18=["p18m_error_is_sticky", "p18m_consume_n1", "p18m_consume_n3", "p18m_after_stop", "p01m_try_consume_n2", "p01m_try_consume_n3"],
                    c18_fail=["mproto_witness_must_fail"]),
+    "pvalid": dict(c01=["p01v_validate_t1_f0", "p01v_validate_t2_f0", "p01v_validate_t2_f1", "p01v_validate_t2_f2", "p01v_validate_t3_f1"],
+                   c01_fail=["p01v_witness_must_fail"]),
+    "ffim": dict(c17=["k17_4_tokens_n0", "k17_4_tokens_n1", "k17_4_tokens_n3", "k17_4_ff_out1_n0", "k17_4_ff_out1_n2", "k17_4_ff_out2_n1", "k17_4_ff_out2_n2", "k17_4_ff_out2_n3", "k17_4_mask_v33_d2", "k17_4_mask_v33_d1",
+                      "k17_4_mask_v33_d3", "k17_4_mask_v32_d1", "k17_4_mask_v31_d1", "k17_4_status"], c17_fail=["k17_4_witness_must_fail"]),
     "cproto": dict(c18=["p18c_compute_mask", "p18c_after_stop", "p18c_commit"], c18_fail=["cproto_witness_must_fail"]),
     "tpproto": dict(c12=["p12_rollback_n0_k1", "p12_rollback_n1_k1", "p12_rollback_n0_k2", "p12_rollback_n1_k2", "p12_refuse_n1", "p12_refuse_n2"],
                     c18=["p18_stopped_is_final", "p18_check_stop_exact", "p18_eos_not_accepting", "p18_mask_protocol",
@@ -93,6 +105,20 @@ def slice_constraint_fns():
     src = open(os.path.join(REPO, "parser/src/constraint.rs")).read()
     fns = [fnslice.extract_fn(src, n, within="impl Constraint {") for n in CONSTRAINT_FNS]
     return fnslice.impl_block("impl Constraint", fns)
+
+
+def slice_pvalid_fns():
+    src = open(os.path.join(REPO, "parser/src/earley/parser.rs")).read()
+    fns = [fnslice.extract_fn(src, "validate_tokens", within="impl ParserState {", required_substrings=("try_push_byte", "eos_tokens"))]
+    return fnslice.impl_block("impl MockPS", fns)
+
+
+def slice_ffim_fns():
+    src = open(os.path.join(REPO, "parser/src/ffi.rs")).read()
+    top = [fnslice.extract_fn(src, n, indent=0) for n in FFIM_TOP_FNS]
+    imp = [fnslice.extract_fn(src, n, within="impl LlgMatcher {") for n in FFIM_IMPL_FNS]
+    return "\n\n".join("#[allow(unused_variables, unused_mut, dead_code, unused_unsafe, clippy::all)]\n" + t for t in top) + "\n" + \
+        fnslice.impl_block("impl LlgMatcher", imp)
 
 
 def slice_tp_fns():
@@ -329,6 +355,10 @@ def prepare(tag, mods):
             ov.write("parser/src/verif_matcher_fns.rs", slice_matcher_fns())
         if "cproto" in mods:
             ov.write("parser/src/verif_constraint_fns.rs", slice_constraint_fns())
+        if "pvalid" in mods:
+            ov.write("parser/src/earley/verif_pvalid_fns.rs", slice_pvalid_fns())
+        if "ffim" in mods:
+            ov.write("parser/src/verif_ffim_fns.rs", slice_ffim_fns())
         if "tpproto" in mods:
             ov.write("parser/src/verif_tp_fns.rs", slice_tp_fns())
         if "builder" in mods:
